@@ -188,3 +188,140 @@ theorem committed_on_one_branch {b b' b'' c c' c'' : S.Blk}
 
 end
 end HsVerif.Safety
+
+/-! ### From blocks on one branch to prefix-related commit logs -/
+
+namespace HsVerif.Safety
+variable {S : Sys}
+
+/-- a commit log: every block's parent is the block before it, the first one's parent is genesis -/
+def ChainLog (S : Sys) : S.Blk → List S.Blk → Prop
+  | _, [] => True
+  | prev, b :: rest => S.par b = prev ∧ S.view prev < S.view b ∧ ChainLog S b rest
+
+/-- the last block of a log that starts after `prev` (or `prev` itself) -/
+def logHead (prev : S.Blk) : List S.Blk → S.Blk
+  | [] => prev
+  | b :: rest => logHead b rest
+
+theorem up_view_le (hv : ∀ b : S.Blk, S.view (S.par b) ≤ S.view b) (k : Nat) (w : S.Blk) : S.view (up S k w) ≤ S.view w := by
+  induction k generalizing w with
+  | zero => exact Nat.le_refl _
+  | succ k ih => simp only [up]; exact Nat.le_trans (ih _) (hv w)
+
+/-- the head of a chain log extends its base by exactly the log's length -/
+theorem chainLog_up (prev : S.Blk) (l : List S.Blk) (h : ChainLog S prev l) : up S l.length (logHead prev l) = prev := by
+  induction l generalizing prev with
+  | nil => rfl
+  | cons b rest ih =>
+    obtain ⟨hp, _, hr⟩ := h
+    have := ih b hr
+    show up S (rest.length + 1) (logHead b rest) = prev
+    rw [Nat.add_comm, up_add, this]
+    simpa [up] using hp
+
+theorem chainLog_view (prev : S.Blk) (l : List S.Blk) (h : ChainLog S prev l) : S.view prev + l.length ≤ S.view (logHead prev l) := by
+  induction l generalizing prev with
+  | nil => simp [logHead]
+  | cons b rest ih =>
+    obtain ⟨_, hv, hr⟩ := h
+    have := ih b hr
+    simp only [logHead, List.length_cons]; omega
+
+/-- a chain log is determined by its base, its length and its head: it is the ancestor path -/
+theorem chainLog_eq_path (prev : S.Blk) (l : List S.Blk) (h : ChainLog S prev l) :
+    l = (List.range l.length).map (fun i => up S (l.length - 1 - i) (logHead prev l)) := by
+  induction l generalizing prev with
+  | nil => rfl
+  | cons b rest ih =>
+    obtain ⟨hp, hv, hr⟩ := h
+    have ihr := ih b hr
+    have hb : up S rest.length (logHead b rest) = b := chainLog_up b rest hr
+    simp only [List.length_cons, logHead]
+    rw [List.range_succ_eq_map, List.map_cons, List.map_map]
+    congr 1
+    · simp [hb]
+    · conv => lhs; rw [ihr]
+      apply List.map_congr_left
+      intro i hi
+      simp only [Function.comp]
+      have : i < rest.length := by simpa using hi
+      congr 1; omega
+
+end HsVerif.Safety
+
+namespace HsVerif.Safety
+variable {S : Sys}
+
+theorem up_gen (hg : S.par S.gen = S.gen) (m : Nat) : up S m S.gen = S.gen := by
+  induction m with
+  | zero => rfl
+  | succ m ih => simp only [up, hg]; exact ih
+
+theorem chainLog_pos (prev : S.Blk) (l : List S.Blk) (h : ChainLog S prev l) :
+    ∀ j, j < l.length → S.view prev < S.view (up S j (logHead prev l)) := by
+  induction l generalizing prev with
+  | nil => intro j hj; simp at hj
+  | cons b rest ih =>
+    obtain ⟨hp, hv, hr⟩ := h
+    intro j hj
+    simp only [logHead]
+    by_cases hjr : j < rest.length
+    · exact Nat.lt_trans hv (ih b hr j hjr)
+    · have : j = rest.length := by simp at hj; omega
+      rw [this, chainLog_up b rest hr]; exact hv
+
+/-- **Commit logs are prefix-related when their heads are on one branch.**  Two logs that are chains
+from genesis (each block's parent is the block committed before it, views increasing), the head of
+the first extending the head of the second: the second log is a prefix of the first. -/
+theorem logs_prefix (hg : S.par S.gen = S.gen) (l1 l2 : List S.Blk)
+    (h1 : ChainLog S S.gen l1) (h2 : ChainLog S S.gen l2)
+    (hx : Ext S (logHead S.gen l1) (logHead S.gen l2)) : l2 <+: l1 := by
+  obtain ⟨k, hk⟩ := hx
+  have u1 := chainLog_up S.gen l1 h1
+  have u2 := chainLog_up S.gen l2 h2
+  have p1 := chainLog_pos S.gen l1 h1
+  have p2 := chainLog_pos S.gen l2 h2
+  by_cases hkn : l1.length ≤ k
+  · -- the second head is genesis: its log is empty
+    have : logHead S.gen l2 = S.gen := by
+      rw [← hk]
+      have : k = (k - l1.length) + l1.length := by omega
+      rw [this, up_add, u1, up_gen hg]
+    have : l2.length = 0 := by
+      apply Classical.byContradiction
+      intro hne
+      have := p2 0 (by omega)
+      simp only [up] at this
+      rw [‹logHead S.gen l2 = S.gen›] at this
+      exact Nat.lt_irrefl _ this
+    have : l2 = [] := List.length_eq_zero_iff.mp this
+    rw [this]; exact List.nil_prefix
+  · have hlen : l1.length = k + l2.length := by
+      have e : up S (l2.length + k) (logHead S.gen l1) = S.gen := by rw [up_add, hk, u2]
+      rcases Nat.lt_trichotomy (k + l2.length) l1.length with hlt | heq | hgt
+      · have := p1 (l2.length + k) (by omega)
+        rw [e] at this; exact absurd this (Nat.lt_irrefl _)
+      · exact heq.symm
+      · have hj : l1.length - k < l2.length := by omega
+        have := p2 (l1.length - k) hj
+        rw [← hk, ← up_add] at this
+        have e2 : l1.length - k + k = l1.length := by omega
+        rw [e2, u1] at this; exact absurd this (Nat.lt_irrefl _)
+    rw [chainLog_eq_path S.gen l1 h1, chainLog_eq_path S.gen l2 h2]
+    refine ⟨(List.range' l2.length k).map (fun i => up S (l1.length - 1 - i) (logHead S.gen l1)), ?_⟩
+    rw [hlen, List.range_eq_range', List.range_eq_range']
+    have : List.range' 0 (k + l2.length) = List.range' 0 l2.length ++ List.range' l2.length k := by
+      rw [Nat.add_comm k]
+      have := (List.range'_append_1 (s := 0) (m := l2.length) (n := k)).symm
+      simpa using this
+    rw [this, List.map_append]
+    congr 1
+    apply List.map_congr_left
+    intro i hi
+    have hil : i < l2.length := by simpa [List.mem_range'] using hi
+    rw [← hk, ← up_add]
+    congr 1
+    omega
+
+end HsVerif.Safety
